@@ -31,12 +31,28 @@ Cmds ==
 
 \* the spawn options: `grouped`, `session` (which implies grouped, also when both are set) and `reset_sigmask`
 \* (which does not place the child anywhere)
+\* The command-line program's own way of making a command (interpret_command_args): --shell=none / -n run
+\* the words as they are (the first is the program); otherwise the shell is --shell's value or $SHELL, split
+\* at whitespace into the program and its options, the program option is -c, and the command is the words
+\* joined with single spaces, as ONE argument.  (The harness uses a helper that reports its argv both as
+\* the program and as the "shell", so nothing interprets the joined string.)
+ShellSpecs == {"none", "n", "env", "S", "S1", "S2"}
+ShellOpts(s) == CASE s = "S1" -> <<"O1">> [] s = "S2" -> <<"O1", "O2">> [] OTHER -> <<>>
+NoShell(s) == s \in {"none", "n"}
+CliCmds ==
+    {[kind |-> "cli", shell |-> sh, args |-> a, opts |-> ShellOpts(sh), progopt |-> IF NoShell(sh) THEN "-" ELSE "-c",
+      command |-> "-"] : sh \in ShellSpecs, a \in Seqs(Tokens, 2)}
+RECURSIVE JoinSp(_)
+JoinSp(w) == IF Len(w) = 1 THEN w[1] ELSE w[1] \o " " \o JoinSp(Tail(w))
+CliWords(c) == <<"HELPER">> \o c.args
+
 Modes == {"plain", "grouped", "session"}
 ModesAll == Modes \cup {"session+grouped", "plain+sigmask", "grouped+sigmask", "session+sigmask", "session+grouped+sigmask"}
 
 \* what the child must see after argv[0]
 Argv(cmd) ==
     IF cmd.kind = "exec" THEN cmd.args
+    ELSE IF cmd.kind = "cli" THEN (IF NoShell(cmd.shell) THEN cmd.args ELSE cmd.opts \o <<"-c", JoinSp(CliWords(cmd))>>)
     ELSE cmd.opts \o (IF cmd.progopt = "-" THEN <<>> ELSE <<cmd.progopt>>) \o <<cmd.command>> \o cmd.args
 
 Placement(mode) ==
@@ -46,7 +62,8 @@ Placement(mode) ==
 
 Vias == {"start", "restart", "restart_with_signal", "try_restart", "try_restart_with_signal"}
 \* (every way of respawning for the short commands, the first start for all)
-ViasFor(c) == IF (c.kind = "exec" /\ Len(c.args) <= 1)
+ViasFor(c) == IF c.kind = "cli" THEN {"start"} ELSE
+              IF (c.kind = "exec" /\ Len(c.args) <= 1)
                  \/ (c.kind = "shell" /\ c.args = <<>> /\ Len(c.opts) <= 1 /\ c.command = "T1")
               THEN Vias ELSE {"start"}
 
@@ -57,22 +74,25 @@ ModesFor(c, v) == IF Short(c) /\ v \in {"start", "restart_with_signal"} THEN Mod
 
 VARIABLES cmd, mode, via, built, pc
 
-Init == cmd \in Cmds /\ via \in ViasFor(cmd) /\ mode \in ModesFor(cmd, via) /\ built = <<>> /\ pc = "start"
+Init == cmd \in Cmds \cup CliCmds /\ via \in ViasFor(cmd) /\ mode \in ModesFor(cmd, via) /\ built = <<>> /\ pc = "start"
 
 \* to_spawnable(): the argument vector is pushed part by part
 Build ==
     /\ pc # "done"
-    /\ CASE pc = "start" -> /\ pc' = (IF cmd.kind = "exec" THEN "args" ELSE "opts") /\ built' = built
+    /\ CASE pc = "start" -> /\ pc' = (IF cmd.kind = "exec" \/ (cmd.kind = "cli" /\ NoShell(cmd.shell)) THEN "args" ELSE "opts")
+                            /\ built' = built
          [] pc = "opts" -> /\ built' = built \o cmd.opts /\ pc' = "progopt"
          [] pc = "progopt" -> /\ built' = (IF cmd.progopt = "-" THEN built ELSE Append(built, cmd.progopt)) /\ pc' = "command"
-         [] pc = "command" -> /\ built' = Append(built, cmd.command) /\ pc' = "args"
+         [] pc = "command" -> IF cmd.kind = "cli"     \* the words, joined; the shell gets no further arguments
+                              THEN /\ built' = Append(built, JoinSp(CliWords(cmd))) /\ pc' = "done"
+                              ELSE /\ built' = Append(built, cmd.command) /\ pc' = "args"
          [] pc = "args" -> /\ built' = built \o cmd.args /\ pc' = "done"
     /\ UNCHANGED <<cmd, mode, via>>
 
 AssemblyIsArgv == pc = "done" => built = Argv(cmd)
 \* nothing is split or merged: one element per configured token
 LengthPreserved ==
-    pc = "done" => Len(built) = Len(cmd.args) + Len(cmd.opts)
+    (pc = "done" /\ cmd.kind # "cli") => Len(built) = Len(cmd.args) + Len(cmd.opts)
                                 + (IF cmd.kind = "shell" THEN 1 + (IF cmd.progopt = "-" THEN 0 ELSE 1) ELSE 0)
 
 Emit ==
